@@ -266,7 +266,7 @@ fn assigned_vars(stmts: &[Stmt], out: &mut Vec<String>) {
             self.visit_expr(&b.right);
         }
         fn visit_expr_method_call(&mut self, m: &'ast ExprMethodCall) {
-            if m.method == "push" {
+            if m.method == "push" || m.method == "extend" || m.method == "pop" {
                 if let Expr::Path(p) = &*m.receiver {
                     let n = p.path.segments.last().unwrap().ident.to_string();
                     if !self.declared.contains(&n) && !self.out.contains(&n) {
@@ -665,6 +665,15 @@ impl<'a> Tr<'a> {
                     None => k("()".into())?,
                 };
                 if let Expr::Let(l) = &*i.cond {
+                    // `if let Some(p) = v.pop() { a } else { b }`: the list loses its last element on the `Some` path (as `while let`)
+                    if let (Expr::MethodCall(m), Pat::TupleStruct(ts)) = (&*l.expr, &*l.pat) {
+                        if m.method == "pop" && m.args.is_empty() && self.path_str(&ts.path) == "Some" && ts.elems.len() == 1 {
+                            let recv = self.assign_name(&m.receiver)?;
+                            let mut binds = String::new();
+                            self.bind_pat(&ts.elems[0], "popped_", &mut binds)?;
+                            return Ok(format!("(match (List.getLast? {r}) with\n| some popped_ =>\nlet {r} := (List.dropLast {r})\n{bi}{a}\n| none =>\n{b})", r = recv, bi = binds, a = a, b = b));
+                        }
+                    }
                     let (scrut, pat) = self.if_let_parts(l)?;
                     return Ok(format!("(match {} with\n| {} =>\n{}\n| _ =>\n{})", scrut, pat, a, b));
                 }
@@ -751,8 +760,15 @@ impl<'a> Tr<'a> {
                 if t.elems.len() == 1 {
                     return self.bind_pat(&t.elems[0], v, out);
                 }
-                // bind the whole value once unless it is already a plain name
-                let simple = v.chars().all(|c| c.is_alphanumeric() || c == '_' || c == '.');
+                // bind the whole value once unless it is already a plain name (that none of the pattern's own names shadows)
+                struct PN(Vec<String>);
+                impl<'ast> visit::Visit<'ast> for PN {
+                    fn visit_pat_ident(&mut self, p: &'ast PatIdent) { self.0.push(ident(&p.ident.to_string())); }
+                }
+                let mut pn = PN(vec![]);
+                visit::Visit::visit_pat(&mut pn, p);
+                let root = v.split('.').next().unwrap_or("");
+                let simple = v.chars().all(|c| c.is_alphanumeric() || c == '_' || c == '.') && !pn.0.iter().any(|n| n == root);
                 let base = if simple {
                     v.to_string()
                 } else {
@@ -973,6 +989,11 @@ impl<'a> Tr<'a> {
                                 let n = self.assign_name(&m.receiver)?;
                                 let v = self.expr(&m.args[0])?;
                                 Ok(format!("let {} := ({} ++ [{}])\n{}", n, n, v, self.stmts(rest, k)?))
+                            } else if m.method == "extend" && m.args.len() == 1 {
+                                // x.extend(vs) on a local list
+                                let n = self.assign_name(&m.receiver)?;
+                                let v = self.expr(&m.args[0])?;
+                                Ok(format!("let {} := ({} ++ {})\n{}", n, n, v, self.stmts(rest, k)?))
                             } else {
                                 Err(format!("unsupported statement `{}`", tok(e)))
                             }
@@ -1112,6 +1133,28 @@ impl<'a> Tr<'a> {
         Ok(out)
     }
 
+    /// the list a `for` iterates over: an integer range `lo..hi` / `lo..=hi` is the list of its elements, also under
+    /// `.into_iter()` / `.iter()` and reversed by `.rev()`; anything else is translated as a value
+    fn iter_expr(&self, e: &Expr) -> R<String> {
+        if let Some((lo, hi, incl)) = as_range(e) {
+            let lo = self.expr(lo)?;
+            let hi = self.expr(hi)?;
+            return Ok(if incl { format!("(List.range' {} (({} + 1) - {}))", lo, hi, lo) } else { format!("(List.range' {} ({} - {}))", lo, hi, lo) });
+        }
+        if let Expr::Paren(p) = e {
+            return self.iter_expr(&p.expr);
+        }
+        if let Expr::MethodCall(m) = e {
+            if m.args.is_empty() && (m.method == "into_iter" || m.method == "iter") && as_range_deep(&m.receiver) {
+                return self.iter_expr(&m.receiver);
+            }
+            if m.args.is_empty() && m.method == "rev" && as_range_deep(&m.receiver) {
+                return Ok(format!("(List.reverse {})", self.iter_expr(&m.receiver)?));
+            }
+        }
+        self.expr(e)
+    }
+
     /// `for pat in iter { body }` over a list: a left fold whose state is the tuple of variables the body assigns
     fn for_fold(&self, f: &ExprForLoop, rest: &[Stmt], k: K) -> R<String> {
         struct J(bool);
@@ -1125,7 +1168,7 @@ impl<'a> Tr<'a> {
             if let Stmt::Expr(Expr::If(i), _) = &f.body.stmts[0] {
                 if i.else_branch.is_none() && i.then_branch.stmts.len() == 1 && !matches!(&*i.cond, Expr::Let(_)) && !has_return_expr(&i.cond) {
                     if let Stmt::Expr(Expr::Return(r), _) = &i.then_branch.stmts[0] {
-                        let iter = self.expr(&f.expr)?;
+                        let iter = self.iter_expr(&f.expr)?;
                         self.ctr.set(self.ctr.get() + 1);
                         let it = format!("it_{}", self.ctr.get());
                         let mut body = String::new();
@@ -1164,14 +1207,7 @@ impl<'a> Tr<'a> {
         if vars.is_empty() {
             return self.stmts(rest, k);
         }
-        let iter = match as_range(&f.expr) {
-            Some((lo, hi, incl)) => {
-                let lo = self.expr(lo)?;
-                let hi = self.expr(hi)?;
-                if incl { format!("(List.range' {} (({} + 1) - {}))", lo, hi, lo) } else { format!("(List.range' {} ({} - {}))", lo, hi, lo) }
-            }
-            None => self.expr(&f.expr)?,
-        };
+        let iter = self.iter_expr(&f.expr)?;
         self.ctr.set(self.ctr.get() + 1);
         let n = self.ctr.get();
         let st = format!("st_{}", n);
@@ -1291,6 +1327,18 @@ fn as_range(e: &Expr) -> Option<(&Expr, &Expr, bool)> {
             Some((lo, hi, matches!(r.limits, RangeLimits::Closed(_))))
         }
         _ => None,
+    }
+}
+
+/// an integer range, possibly under `.into_iter()` / `.iter()` / `.rev()` / parentheses
+fn as_range_deep(e: &Expr) -> bool {
+    if as_range(e).is_some() {
+        return true;
+    }
+    match e {
+        Expr::Paren(p) => as_range_deep(&p.expr),
+        Expr::MethodCall(m) => m.args.is_empty() && (m.method == "into_iter" || m.method == "iter" || m.method == "rev") && as_range_deep(&m.receiver),
+        _ => false,
     }
 }
 
